@@ -161,6 +161,10 @@ func (t *itr) effFnCall(ext string, argsE []ast.Expr, pre *[]string) string {
 		if _, isTok := t.tokenOf(t.typeOf(a)); isTok {
 			continue
 		}
+		if id, ok := a.(*ast.Ident); ok && id.Name == "nil" {
+			as = append(as, "default")
+			continue
+		}
 		as = append(as, t.expr(a, pre))
 	}
 	rv := t.tmp("r")
@@ -3227,10 +3231,11 @@ func genGeneric(repo string, tiny bool) (string, []string) {
 	if tiny {
 		ns, mns, imp, pns = "ArcheGen.G64", "ArcheGen.M64", "ArcheGen.Pool64", "ArcheGen.P64"
 	}
-	t := &itr{p: gp, structs: map[string]bool{"compiledQuery": true, "Filter0": true, "filter": true, "Entity": true, "CachedFilter": true}, opaque: map[string]bool{}, maskNS: mns}
+	t := &itr{p: gp, structs: map[string]bool{"compiledQuery": true, "Filter0": true, "filter": true, "Entity": true, "CachedFilter": true, "Exchange": true}, opaque: map[string]bool{}, maskNS: mns}
+	t.view = map[string][]string{"Exchange": {"add", "remove", "hasRelation", "relationID"}}
 	t.ns = ns
 	t.ptrOption = true
-	t.tokens = map[string]bool{"World": true, "RelationFilter": true, "Cache": true}
+	t.tokens = map[string]bool{"World": true, "RelationFilter": true, "Cache": true, "Relations": true, "Batch": true}
 	t.inject = map[string]string{"Mask": "ofMaskF", "MaskFilter": "ofMaskFilterF", "CachedFilter": "ofCachedF"}
 	t.reflectIf = "isRelationTypeF"
 	t.externs = map[string]string{
@@ -3246,12 +3251,22 @@ func genGeneric(repo string, tiny bool) (string, []string) {
 		"pure.relFilter":     mns + ".MaskFilter → Entity → GoAny",
 		"pure.isRelationType": "GoAny → Bool",
 		"assert.CachedFilterValue": "GoAny → Option CachedFilter",
+		"eff.relExchange":      "Ext → Entity → GoSlice (BitVec 8) → GoSlice (BitVec 8) → BitVec 8 → Entity → Ext × Unit",
+		"eff.worldAdd":         "Ext → Entity → GoSlice (BitVec 8) → Ext × Unit",
+		"eff.worldRemove":      "Ext → Entity → GoSlice (BitVec 8) → Ext × Unit",
+		"eff.worldExchange":    "Ext → Entity → GoSlice (BitVec 8) → GoSlice (BitVec 8) → Ext × Unit",
+		"eff.relExchangeBatch": "Ext → GoAny → GoSlice (BitVec 8) → GoSlice (BitVec 8) → BitVec 8 → Entity → Ext × Int",
+		"eff.batchExchange":    "Ext → GoAny → GoSlice (BitVec 8) → GoSlice (BitVec 8) → Ext × Int",
 	}
 	t.extOwner = map[string]string{"toIdsF": "eff.toIds", "toMaskF": "eff.toMask", "toMaskOptionalF": "eff.toMaskOptional", "typeIDF": "eff.typeID",
 		"cacheRegisterF": "eff.cacheRegister", "cacheUnregisterF": "eff.cacheUnreg", "ofMaskF": "pure.ofMask", "ofMaskFilterF": "pure.ofMaskFilter",
-		"ofCachedF": "pure.ofCached", "relFilterF": "pure.relFilter", "isRelationTypeF": "pure.isRelationType", "asCachedFilterF": "assert.CachedFilterValue"}
+		"ofCachedF": "pure.ofCached", "relFilterF": "pure.relFilter", "isRelationTypeF": "pure.isRelationType", "asCachedFilterF": "assert.CachedFilterValue",
+		"relExchangeF": "eff.relExchange", "worldAddF": "eff.worldAdd", "worldRemoveF": "eff.worldRemove", "worldExchangeF": "eff.worldExchange",
+		"relExchangeBatchF": "eff.relExchangeBatch", "batchExchangeF": "eff.batchExchange"}
 	t.effFn = map[string]string{"toIds": "toIdsF", "toMask": "toMaskF", "toMaskOptional": "toMaskOptionalF", "ecs.TypeID": "typeIDF",
-		"Cache.Register": "cacheRegisterF", "Cache.Unregister": "cacheUnregisterF"}
+		"Cache.Register": "cacheRegisterF", "Cache.Unregister": "cacheUnregisterF",
+		"Relations.Exchange": "relExchangeF", "World.Add": "worldAddF", "World.Remove": "worldRemoveF", "World.Exchange": "worldExchangeF",
+		"Relations.ExchangeBatch": "relExchangeBatchF", "Batch.Exchange": "batchExchangeF"}
 	t.pureFn = map[string]string{"ecs.NewRelationFilter": "relFilterF"}
 	t.ifaceExt = map[string]string{}
 	t.effIface = map[string]string{}
@@ -3259,17 +3274,20 @@ func genGeneric(repo string, tiny bool) (string, []string) {
 	t.tokExt = map[string]string{}
 	t.fieldExt = map[string]string{}
 	t.usesEff = map[string]bool{"compiledQuery.Compile": true, "compiledQuery.Register": true, "compiledQuery.Unregister": true,
-		"Filter0.Filter": true, "Filter0.Register": true, "Filter0.Unregister": true}
+		"Filter0.Filter": true, "Filter0.Register": true, "Filter0.Unregister": true,
+		"Exchange.Removes": true, "Exchange.Add": true, "Exchange.Remove": true, "Exchange.Exchange": true, "Exchange.ExchangeBatch": true}
 	t.nilChecks = map[string]bool{"compiledQuery.Compile": true}
-	t.joinIf = map[string]bool{"compiledQuery.Compile": true, "compiledQuery.Unregister": true, "Filter0.Filter": true, "Filter0.WithRelation": true}
+	t.joinIf = map[string]bool{"compiledQuery.Compile": true, "compiledQuery.Unregister": true, "Filter0.Filter": true, "Filter0.WithRelation": true,
+		"Exchange.Add": true, "Exchange.Remove": true, "Exchange.Exchange": true}
 	t.selfRet = true
 	t.needExt = map[string][]string{}
 	var sb strings.Builder
 	fmt.Fprintf(&sb, "/- GENERATED by /verif/extract (imperative translator) from the Go source of /repo — do not edit. -/\nimport %s\nset_option linter.unusedVariables false\nnamespace %s\nopen ArcheGen %s\n\n", imp, ns, pns)
 	t.emitStruct(&sb, "compiledQuery")
 	t.emitStruct(&sb, "Filter0")
-	funcs := []string{"compiledQuery.Compile", "compiledQuery.Reset", "compiledQuery.Register", "compiledQuery.Unregister",
-		"Filter0.With", "Filter0.Without", "Filter0.Exclusive", "Filter0.WithRelation", "Filter0.Filter", "Filter0.Register", "Filter0.Unregister"}
+	t.emitStruct(&sb, "Exchange")
+	funcs := []string{"Exchange.Removes", "Exchange.Add", "Exchange.Remove", "Exchange.ExchangeBatch", "compiledQuery.Compile", "compiledQuery.Reset", "compiledQuery.Register", "compiledQuery.Unregister",
+		"Filter0.With", "Filter0.Without", "Filter0.Exclusive", "Filter0.WithRelation", "Filter0.Filter", "Filter0.Register", "Filter0.Unregister", "Exchange.Exchange"} // Exchange.Exchange last: inside its namespace the name `Exchange` would shadow the structure
 	direct := map[string]map[string]bool{}
 	calls := map[string][]string{"Filter0.With": {"compiledQuery.Reset"}, "Filter0.Without": {"compiledQuery.Reset"}, "Filter0.Exclusive": {"compiledQuery.Reset"},
 		"Filter0.WithRelation": {"compiledQuery.Reset"}, "Filter0.Filter": {"compiledQuery.Compile"}, "Filter0.Register": {"compiledQuery.Compile", "compiledQuery.Register"},
